@@ -224,6 +224,18 @@ def run_shard(spec, acc):
                 if exp != "u" and o[0] != exp:
                     key = "python-int-float-grammar-accepted" if (exp == "reject" and o[0] == "accept") else "endseqno-special-case"
                     acc.violation(key, f"EndSeqNo {s!r} -> {o}", {"value": s}, f"endseqno:{s}")
+        # the EndSeqNo exception is EndSeqNo's alone: after it was exercised on this schema, no other SeqNum / NumInGroup field
+        # of the same schema object may accept zero (verdicts must not depend on what was validated before)
+        for sch in schemas:
+            for tag, f in sorted(sch._tag2field.items(), key=lambda kv: int(kv[0])):
+                if tag == "16" or f.values or f.ftype.upper() not in ("SEQNUM", "NUMINGROUP"):
+                    continue
+                acc.oracle("endseqno-zero")
+                acc.case(("zero-after-endseqno", tag, id(sch)))
+                o = call(f, "0")
+                if o[0] != "reject":
+                    acc.violation("zero-accepted-after-endseqno-zero", f"{f.ftype} field {f.name}({tag}): '0' -> {o} after EndSeqNo=0 was validated on the same schema",
+                                  {"field": f.name, "value": "0"}, f"zero-after:{tag}")
     # ---- enumerated fields
     eidx = 0
     for si, sch in enumerate(schemas):
